@@ -254,6 +254,9 @@ fn checksum_stage(ck: &mut Check) {
         json!({"engine": "C-bfs", "model": "checksum-bfs", "algorithm_spellings": m.spellings, "algorithm_classes": m.lower, "actions_per_state": m.acts.len(), "initial_states": res.inits,
                "states": res.states, "transitions": res.transitions, "max_depth": res.max_depth, "fixpoint_reached": res.fixpoint, "new_states_per_depth": res.per_depth, "wall_s": t0.elapsed().as_secs_f64()}),
     );
+    let mut a = Acc::new();
+    let rep = crate::m_checksum::long_histories(&mut a);
+    ck.add_stage(a, rep);
 }
 
 fn c11(ck: &mut Check) {
@@ -313,6 +316,9 @@ fn c11(ck: &mut Check) {
     ck.states = Some(ck.states.unwrap_or(0) + states);
     ck.transitions = Some(ck.transitions.unwrap_or(0) + transitions);
     ck.traces = ck.transitions;
+    let mut a = Acc::new();
+    let rep = crate::m_quals::long_histories(&mut a);
+    ck.add_stage(a, rep);
 }
 
 pub fn prop_static(p: &str) -> &'static str {
